@@ -435,6 +435,15 @@ theorem extract_header (endRe : Re) (hnil : Matches endRe []) (hcs : canStart en
   unfold extractRawWith
   simp only [filterIgnore_id (header_ignoreless sf rq)]
   rw [header_lic endRe hnil hcs hnull sf rq, header_con endRe hnil hcs hnull sf rq]
+  -- every requested licence value is non-empty (`wfTagValue`): the filter of empty values keeps them all
+  have hfil : (dedup L).filter (fun v => !v.isEmpty) = dedup L := by
+    apply List.filter_eq_self.mpr
+    intro v hv
+    have hw := (rq.hL v (mem_dedup.mp hv)).1
+    unfold wfTagValue at hw
+    simp only [Bool.and_eq_true] at hw
+    exact hw.1.1.1
+  rw [hfil]
   have := header_cpr endRe sf rq
   unfold cprOf at this
   rw [this]
